@@ -446,6 +446,9 @@ func c02(c *Ctx) {
 			}
 		}
 	}
+	// a mutex taken in the receive loop's reach and not released on some path blocks the loop at the next acquisition:
+	// the listener stays up but stops processing frames
+	lockReleaseRule(c, "recv-loop-lock-released", append([]*ssa.Function(nil), fns...), 2, "mutex acquisitions in the receive loop's reach", "the receive loop blocks for ever at the next acquisition")
 	// (c) bounds on frame-derived data
 	taint := frameTaint(p, root, fns)
 	nOb, nProved := 0, 0
